@@ -27,12 +27,19 @@ type freeIn struct {
 	MaxBytes int    `json:"maxbytes"`
 	ZeroRead int    `json:"zeroread"` // percent of reads with an empty buffer
 	Racers   int    `json:"racers"`   // percent of streams with a goroutine changing deadlines under the reader/writer
+	Big      int    `json:"big"`      // >0: one stream, one Write of this many bytes (more than a data block and than the window)
+}
+
+// bigFree is the "very large write" workload: a single Write larger than the window and
+// than the largest data block, read with large buffers.
+func bigFree(seed int64) freeIn {
+	return freeIn{Mode: "free", Seed: seed, W: 65535, B: 1, Bufs: 1, Cap: 256, MaxBytes: 70000, Big: 70000, Opens: [2]int{1, 0}}
 }
 
 func randomFree(rng *rand.Rand, seed int64) freeIn {
 	ws := []int{1, 2, 3, 7, 64, 65535}
 	in := freeIn{Mode: "free", Seed: seed,
-		W: ws[rng.Intn(len(ws))], B: []int{1, 2, 8}[rng.Intn(3)], Bufs: []int{1, 2, 5}[rng.Intn(3)],
+		W: ws[rng.Intn(len(ws))], B: []int{0, 1, 2, 8}[rng.Intn(4)], Bufs: []int{-1, 1, 2, 5}[rng.Intn(4)],
 		Cap: []int{0, 0, 16, 256}[rng.Intn(4)], Hb: []int{0, 0, 2}[rng.Intn(3)],
 		MaxBytes: []int{20, 60, 160}[rng.Intn(3)], ZeroRead: []int{0, 10, 25}[rng.Intn(3)]}
 	in.Racers = []int{0, 50, 100}[rng.Intn(3)]
@@ -67,14 +74,20 @@ func (x *freeRun) writer(e, sid int, st *multiplexing.Stream) {
 	rng := x.rngFor(e, sid, 1)
 	total := rng.Intn(x.in.MaxBytes + 1)
 	maxChunk := []int{1, 3, 9, 40, 200}[rng.Intn(5)]
+	if x.in.Big > 0 {
+		total, maxChunk = 0, 1
+		if e == 0 { // the opener writes everything in one call
+			total, maxChunk = x.in.Big, x.in.Big
+		}
+	}
 	pos := 0
 	for pos < total {
 		n := rng.Intn(maxChunk + 1)
-		if n > total-pos {
+		if n > total-pos || x.in.Big > 0 {
 			n = total - pos
 		}
 		data := payload(e, sid, pos, n)
-		useDeadline := rng.Intn(8) == 0
+		useDeadline := rng.Intn(8) == 0 && x.in.Big == 0
 		x.add(map[string]any{"ev": "Call", "e": e, "op": "write", "s": sid, "k": n, "d": ints(data), "t": nowMs()})
 		if useDeadline {
 			st.SetWriteDeadline(time.Now().Add(time.Duration(1+rng.Intn(3)) * time.Millisecond))
@@ -112,8 +125,11 @@ func (x *freeRun) reader(e, sid int, st *multiplexing.Stream) {
 	defer x.wg.Done()
 	rng := x.rngFor(e, sid, 2)
 	sizes := []int{1, 2, 3, 7, 16, 64, 300}
+	if x.in.Big > 0 {
+		sizes = []int{20000, 32768}
+	}
 	earlyClose := -1
-	if rng.Intn(7) == 0 {
+	if rng.Intn(7) == 0 && x.in.Big == 0 {
 		earlyClose = rng.Intn(x.in.MaxBytes/2 + 1)
 	}
 	got := 0
@@ -339,11 +355,19 @@ func runStorm(cid string, in stormIn) *recorder {
 
 // ---- random gated scripts ---------------------------------------------------
 
+func absInt(v int) int {
+	if v < 0 {
+		return -v
+	}
+	return v
+}
+
 // randomScript generates an API script beyond the model's bound (more streams,
 // larger windows, longer). Steps that do not apply when executed are skipped
 // by the runner and recorded as such.
 func randomScript(rng *rand.Rand) scriptIn {
-	in := scriptIn{Mode: "script", W: []int{1, 2, 3, 7}[rng.Intn(4)], B: 1 + rng.Intn(2), Bufs: []int{1, 2, 5}[rng.Intn(3)]}
+	// configuration edge cases included: window 0 / negative (no inbound data), backlog 0 (means 1), buffer count -1 (means 1)
+	in := scriptIn{Mode: "script", W: []int{1, 2, 3, 7, 1, 2, 0, -1}[rng.Intn(8)], B: rng.Intn(3), Bufs: []int{1, 2, 5, -1}[rng.Intn(4)]}
 	n := 25 + rng.Intn(40)
 	nopen := [2]int{}
 	ids := func(e int) []int {
@@ -380,15 +404,15 @@ func randomScript(rng *rand.Rand) scriptIn {
 		case x < 54:
 			in.Steps = append(in.Steps, step{Op: []string{"setwd", "setrd"}[rng.Intn(2)], E: e, S: pick(), N: rng.Intn(4)})
 		case x < 58:
-			in.Steps = append(in.Steps, step{Op: "wstart", E: e, S: pick(), N: 1 + rng.Intn(in.W+2)})
+			in.Steps = append(in.Steps, step{Op: "wstart", E: e, S: pick(), N: 1 + rng.Intn(absInt(in.W)+2)})
 		case x < 61:
-			in.Steps = append(in.Steps, step{Op: "rstart", E: e, S: pick(), N: 1 + rng.Intn(in.W+1)})
+			in.Steps = append(in.Steps, step{Op: "rstart", E: e, S: pick(), N: 1 + rng.Intn(absInt(in.W)+1)})
 		case x < 65:
 			in.Steps = append(in.Steps, step{Op: []string{"wend", "rend"}[rng.Intn(2)], E: e, S: pick()})
 		case x < 76:
-			in.Steps = append(in.Steps, step{Op: "write", E: e, S: pick(), N: rng.Intn(in.W + 3)})
+			in.Steps = append(in.Steps, step{Op: "write", E: e, S: pick(), N: rng.Intn(absInt(in.W) + 3)})
 		case x < 92:
-			in.Steps = append(in.Steps, step{Op: "read", E: e, S: pick(), N: rng.Intn(in.W + 2)})
+			in.Steps = append(in.Steps, step{Op: "read", E: e, S: pick(), N: rng.Intn(absInt(in.W) + 2)})
 		case x < 96:
 			in.Steps = append(in.Steps, step{Op: "cw", E: e, S: pick()})
 		default:
